@@ -84,6 +84,34 @@ var c09Jobs = []c09Job{
 	}},
 }
 
+// c09Index is a package-name index shared (read-only, as far as the jobs go) by several Files,
+// the way a generated gennames table is used.
+var c09Index = map[string]string{"x/yaml.v2": "yaml", "e/util": "util", "fmt": "fmt"}
+
+func init() {
+	c09Jobs = append(c09Jobs,
+		c09Job{"failing-fragment", func(k func(jen.Code) jen.Code) string {
+			var b bytes.Buffer
+			if err := jen.Qual("a/f", "Q").Op("{").Qual("b/f", "R").Render(&b); err != nil {
+				return "ERROR " + jh.Short(err.Error(), 60)
+			}
+			return b.String()
+		}},
+		c09Job{"shared-index-user", func(k func(jen.Code) jen.Code) string {
+			f := jen.NewFile("u")
+			f.ImportNames(c09Index)
+			f.Var().Id("_").Op("=").List(jen.Qual("e/yaml.v3", "Marshal"), jen.Qual("e/util", "X"), jen.Qual("x/yaml.v2", "Y"))
+			return c09Out(f)
+		}},
+		c09Job{"shared-index-extender", func(k func(jen.Code) jen.Code) string {
+			f := jen.NewFile("v")
+			f.ImportNames(c09Index)
+			f.ImportNames(map[string]string{"e/yaml.v3": "yaml3", "d/util": "util"})
+			f.Var().Id("_").Op("=").List(jen.Qual("e/yaml.v3", "Marshal"), jen.Qual("d/util", "X"))
+			return c09Out(f)
+		}})
+}
+
 func c09Bodies(ctl *env.Controller, idx []int) []func() string {
 	var out []func() string
 	for _, i := range idx {
@@ -156,6 +184,7 @@ var c09SharedParts = []c09Shared{
 	}},
 	{"bare-Block", nil}, // handled specially: one Block used after Case in one File and after If in the other
 	{"Local-Qual", func() jen.Code { return jen.Qual("l/one", "Here").Call() }},
+	{"Clones-of-one-base", nil}, // each File appends to its own Clone() of one base statement that has spare capacity
 }
 
 type c09FileCfg struct {
@@ -199,32 +228,47 @@ func c09Place(f *jen.File, parts []jen.Code, block *jen.Statement, afterCase boo
 // c09Share renders two Files that share the selected parts, in the given order (twice each),
 // and compares with Files built privately. Returns "" or a description.
 func c09Share(mask int, cfgA, cfgB int, bFirst bool) (msg string, nontrivial bool) {
-	build := func() ([]jen.Code, *jen.Statement) {
-		var parts []jen.Code
-		var block *jen.Statement
+	// build returns the parts for File A and for File B (the same objects, except for the clones
+	// of one shared base statement, of which each File gets its own) and the bare Block
+	build := func(wantA, wantB bool) (partsA, partsB []jen.Code, block *jen.Statement) {
 		for i, sp := range c09SharedParts {
 			if mask&(1<<i) == 0 {
 				continue
 			}
-			if sp.mk == nil {
+			switch sp.name {
+			case "bare-Block":
 				block = jen.Block(jen.Qual("a/f", "InBlock").Call())
-			} else {
-				parts = append(parts, sp.mk())
+			case "Clones-of-one-base":
+				base := jen.Id("x").Dot("f1").Dot("f2")
+				if wantA {
+					partsA = append(partsA, base.Clone().Call(jen.Lit(1)))
+				}
+				if wantB {
+					partsB = append(partsB, base.Clone().Index(jen.Lit(0)))
+				}
+			default:
+				p := sp.mk()
+				partsA = append(partsA, p)
+				partsB = append(partsB, p)
 			}
 		}
-		return parts, block
+		return
 	}
-	private := func(cfg int, afterCase bool) string {
+	private := func(cfg int, isA bool) string {
 		f := c09FileCfgs[cfg].build()
-		parts, block := build()
-		c09Place(f, parts, block, afterCase)
+		pa, pb, block := build(isA, !isA)
+		if isA {
+			c09Place(f, pa, block, true)
+		} else {
+			c09Place(f, pb, block, false)
+		}
 		return c09Out(f)
 	}
 	wantA, wantB := private(cfgA, true), private(cfgB, false)
-	parts, block := build()
+	pa, pb, block := build(true, true)
 	fa, fb := c09FileCfgs[cfgA].build(), c09FileCfgs[cfgB].build()
-	c09Place(fa, parts, block, true)
-	c09Place(fb, parts, block, false)
+	c09Place(fa, pa, block, true)
+	c09Place(fb, pb, block, false)
 	var gotA, gotB string
 	if bFirst {
 		gotB, gotA = c09Out(fb), c09Out(fa)
@@ -249,7 +293,7 @@ func runC09(r *ev.Recorder) {
 		os.Exit(2)
 	}
 	bound := 2
-	jobSets := [][]int{{0, 1}, {1, 2}, {0, 2}, {3, 0}, {1, 4}, {2, 4}, {3, 2}, {1, 1}, {0, 0}, {2, 2}}
+	jobSets := [][]int{{0, 1}, {1, 2}, {0, 2}, {3, 0}, {1, 4}, {2, 4}, {3, 2}, {1, 1}, {0, 0}, {2, 2}, {5, 4}, {6, 7}, {7, 7}, {7, 1}}
 	if r.Tier == ev.Thorough {
 		bound = 3
 		jobSets = append(jobSets, []int{0, 1, 2}, []int{3, 1, 2}, []int{1, 2, 4}, []int{0, 3, 4}, []int{1, 0, 3})
@@ -266,7 +310,7 @@ func runC09(r *ev.Recorder) {
 		"scheduling points = every statement touching a package-level variable of jennifer (inserted by the instrumenter from go/types on the current tree) + job start/end; all interleavings with <= %d preemptions for %d job sets; "+
 		"package-level variables are snapshotted and restored per execution, map order pinned to canonical. Oracle: every job's output equals its solo output computed in a pristine process; and, when the package uses no synchronisation at all, "+
 		"no package-level variable is written by one job and accessed by another (a data race by construction). "+
-		"(2) histories: every order of rendering all %d jobs sequentially in one process, each job run again after the others; every subset of 5 shareable parts (a Qual, a Case+Block, a Dict, a bare Block used after Case in one File and after If in the other, a Qual that is local to one File) "+
+		"(2) histories: every permutation of the first five and every ordered triple of all %d jobs rendered sequentially in one process, each sequence twice; every subset of 6 shareable parts (a Qual, a Case+Block, a Dict, a bare Block used after Case in one File and after If in the other, a Qual that is local to one File, two Clones of one base statement with spare capacity - one per File) "+
 		"shared between two Files of 4 configurations, rendered in both orders and twice - each output must equal that of a File built privately. "+
 		"(3) race pass: the same job bodies on free-running goroutines in a -race build (complement: a cooperative scheduler's hand-offs hide unsynchronised accesses). "+
 		"states = schedules + orders + sharings executed; distinct_nontrivial = distinct schedules with at least one preemption + sharings between Files whose private renderings differ", jn, bound, len(jobSets), len(c09Jobs))
@@ -291,21 +335,32 @@ func runC09(r *ev.Recorder) {
 	var states, transitions int64
 	snap0 := sched.Take(env.Globals())
 	stop := func() bool { return r.Expired() || r.Violations() > 100 }
-	// (2a) orders
+	// (2a) orders: every permutation of the first five jobs, and every ordered triple of all jobs;
+	// each sequence is run twice in a row (every job again after the others)
 	n := len(c09Jobs)
-	for pi, perm := range explore.Perms(n) {
-		var got []string
-		for _, i := range perm {
-			got = append(got, c09Bodies(nil, []int{i})[0]())
+	var seqs [][]int
+	seqs = append(seqs, explore.Perms(5)...)
+	for a := 0; a < n; a++ {
+		for b := 0; b < n; b++ {
+			for c := 0; c < n; c++ {
+				if a != b && b != c && a != c {
+					seqs = append(seqs, []int{a, b, c})
+				}
+			}
 		}
-		for _, i := range perm { // each again, after the others
-			got = append(got, c09Bodies(nil, []int{i})[0]())
+	}
+	for pi, perm := range seqs {
+		var got []string
+		for pass := 0; pass < 2; pass++ {
+			for _, i := range perm {
+				got = append(got, c09Bodies(nil, []int{i})[0]())
+			}
 		}
 		r.Eval(1)
 		states++
-		transitions += int64(2 * n)
+		transitions += int64(len(got))
 		for k, o := range got {
-			j := c09Jobs[perm[k%n]]
+			j := c09Jobs[perm[k%len(perm)]]
 			if o != solo[j.name] {
 				desc := fmt.Sprintf("jobs rendered sequentially in order %v (then all again): render #%d (%s) differs from its solo output", perm, k+1, j.name)
 				r.Violate(ev.Violation{Signature: "c09:order:" + j.name, What: desc, Case: ev.JSON(c09Case{Kind: "order", Jobs: perm, Desc: desc}), Detail: fmt.Sprintf("--- got\n%s\n--- solo\n%s", o, solo[j.name])})
@@ -394,7 +449,13 @@ func runC09(r *ev.Recorder) {
 			names = append(names, c09Jobs[i].name)
 		}
 		outcomes := map[string]bool{}
-		st := explore.Explore(explore.Options{MaxDev: bound, Workers: 1, Stop: stop}, func(c *explore.Ctx) {
+		st := explore.Explore(explore.Options{MaxDev: bound, Workers: 1, Stop: stop, OnDivergence: func(vec []int, msg string) {
+			// with package-level variables restored and the schedule fixed, jennifer must behave
+			// as a function of the schedule; if it does not, state survives somewhere else
+			desc := fmt.Sprintf("jobs %v: replaying schedule prefix %v met different scheduling points than the execution that recorded it (%s)", names, vec, msg)
+			r.Violate(ev.Violation{Signature: "c09:not-a-function-of-the-schedule", What: desc, Case: ev.JSON(c09Case{Kind: "schedule", Jobs: set, Vector: vec, Desc: desc}),
+				Detail: "package-level variables are restored before every execution and map order is pinned, so behaviour that differs between two executions of the same schedule prefix means state is kept outside the Files (e.g. in a pool or cache the snapshot cannot restore: " + fmt.Sprint(snap.Opaque) + ")"})
+		}}, func(c *explore.Ctx) {
 			snap.Restore()
 			outs, trace, ok := sched.Run(c, c09Bodies(ctl, set))
 			r.Eval(1)
